@@ -71,10 +71,10 @@ func (d *memDir) Persist(kind string, id uint64, w index.WriterTo, closeCh chan 
 	return fmt.Errorf("memDir is read-only")
 }
 func (d *memDir) Remove(kind string, id uint64) error { return fmt.Errorf("memDir is read-only") }
-func (d *memDir) Stats() (uint64, uint64)              { return 0, 0 }
-func (d *memDir) Sync() error                          { return nil }
-func (d *memDir) Lock() error                          { return nil }
-func (d *memDir) Unlock() error                        { return nil }
+func (d *memDir) Stats() (uint64, uint64)             { return 0, 0 }
+func (d *memDir) Sync() error                         { return nil }
+func (d *memDir) Lock() error                         { return nil }
+func (d *memDir) Unlock() error                       { return nil }
 
 // ---------------------------------------------------------------------------------------------
 
